@@ -122,12 +122,6 @@ Proof.
 Qed.
 
 (* ================= the LRA stage ================= *)
-Section STAGES.
-  Variable fp : lmap -> N.
-  Variable to_float : string -> Qc.
-  Variable quantile_o : string -> list Qc -> Qc.
-  Variable varpop stddevpop : list Qc -> Qc.
-
   Lemma lmap_eqb_eq a : forall b, lmap_eqb a b = true <-> a = b.
   Proof.
     induction a as [|[k v] r IH]; intros [|[k' v'] r']; cbn; try (split; [discriminate|discriminate]); [tauto|].
@@ -191,7 +185,6 @@ Section STAGES.
     - rewrite bucket_sql_is_bucket; [reflexivity| |exact Hd].
       apply Hn. eapply group_members; [exact Hg|now left].
   Qed.
-End STAGES.
 
 (* ================= the analysis function of the 15-second shortcut ================= *)
 Lemma m15_stage_ok_spec st : m15_stage_ok st = stage_transparent st || is_stream_label_filter st.
@@ -210,4 +203,76 @@ Lemma floor15_le x : 0 <= x -> floor15 x <= x < floor15 x + 15000000000.
 Proof.
   intros Hx. unfold floor15. rewrite quot_div_nonneg by lia.
   pose proof (Z.div_mod x 15000000000 ltac:(lia)). pose proof (Z.mod_pos_bound x 15000000000 ltac:(lia)). lia.
+Qed.
+
+(* ================= windows ================= *)
+Lemma bucket_mono d a b : 0 < d -> a <= b -> bucket d a <= bucket d b.
+Proof. intros Hd Hab. unfold bucket. apply Z.mul_le_mono_nonneg_r; [lia|]. now apply Z.div_le_mono. Qed.
+
+(* main_init reads samples with from <= ts < to: the window of the bucket such a sample contributes to *)
+Lemma window_bounded c d ts : 0 < d -> c_from_ns c <= ts < c_to_ns c ->
+  bucket d (c_from_ns c) <= bucket d ts /\ bucket d ts <= ts < bucket d ts + d /\ bucket d ts + d <= bucket d (c_to_ns c) + d.
+Proof.
+  intros Hd [H1 H2]. split; [apply bucket_mono; lia|]. split; [now apply bucket_le|].
+  pose proof (bucket_mono d ts (c_to_ns c) Hd ltac:(lia)). lia.
+Qed.
+Example window_bounded_hyp :
+  let c := {| c_from_ns := 1700000007000000000; c_to_ns := 1700000067000000000; c_limit := 0; c_asc := true; c_cluster := false; c_type := 1;
+              c_finalize := true; c_step_ns := 5000000000; t_gin := ""; t_samples := ""; t_ts := ""; t_ts_dist := ""; t_m15 := "" |} in
+  0 < 60000000000 /\ c_from_ns c <= 1700000011000000000 < c_to_ns c.
+Proof. cbn. lia. Qed.
+(* the where clause of the time filter is the one the theorem reads *)
+Example main_init_window c :
+  s_prewhere (main_init c) = Some (And [Ge (Id "samples.timestamp_ns") (IntV (c_from_ns c)); Lt (Id "samples.timestamp_ns") (IntV (c_to_ns c)); get_types c]).
+Proof. reflexivity. Qed.
+
+(* the shortcut select reads 15-second slots with floor15 from <= slot < floor15 to; a slot holds the lines of
+   [slot, slot + 15 s): no line before floor15 from and none at or after `to` contributes *)
+Lemma shortcut_window_bounded c slot ts : 0 <= c_from_ns c -> 0 <= c_to_ns c -> slot mod 15000000000 = 0 ->
+  m15_in_window c slot = true -> slot <= ts < slot + 15000000000 ->
+  floor15 (c_from_ns c) <= ts < floor15 (c_to_ns c) /\ floor15 (c_to_ns c) <= c_to_ns c.
+Proof.
+  intros Hf Ht Hs Hw Hts. unfold m15_in_window in Hw. apply andb_true_iff in Hw. destruct Hw as [H1 H2].
+  apply Z.leb_le in H1. apply Z.ltb_lt in H2. pose proof (floor15_le _ Ht) as Hfl.
+  split; [|lia]. split; [lia|].
+  unfold floor15 in *. rewrite quot_div_nonneg in * by lia.
+  set (q := c_to_ns c / 15000000000) in *.
+  pose proof (Z.div_mod slot 15000000000 ltac:(lia)) as E. rewrite Hs in E.
+  assert (slot / 15000000000 < q) by nia. nia.
+Qed.
+Example shortcut_window_hyp :
+  let c := {| c_from_ns := 1700000007000000000; c_to_ns := 1700000607000000000; c_limit := 0; c_asc := true; c_cluster := false; c_type := 1;
+              c_finalize := true; c_step_ns := 60000000000; t_gin := ""; t_samples := ""; t_ts := ""; t_ts_dist := ""; t_m15 := "" |} in
+  1700000580000000000 mod 15000000000 = 0 /\ m15_in_window c 1700000580000000000 = true.
+Proof. vm_compute. split; reflexivity. Qed.
+
+(* the label filters of a shortcut pipeline are all applied to the fingerprint selection *)
+Lemma plan_ts_filters : forall ppl (fp0 : planner),
+  (forall st, List.In st ppl -> is_parser st = false) ->
+  fp_label_filters (fold_left (fun fp sb => match fst sb, snd sb with
+                                            | PLabelFilter f, true => PSimpleLabelFilter f fp
+                                            | _, _ => fp end) (combine ppl (simple_ops ppl)) fp0)
+  = (fp_label_filters fp0 ++ pipeline_label_filters ppl)%list.
+Proof.
+  induction ppl as [|st r IH]; intros fp0 Hnp; cbn [simple_ops combine fold_left pipeline_label_filters flat_map].
+  - now rewrite app_nil_r.
+  - rewrite (Hnp st) by now left. cbn [combine fold_left].
+    rewrite IH by (intros s Hs; apply Hnp; now right).
+    destruct st; cbn [fst snd is_label_filter fp_label_filters]; try reflexivity.
+    now rewrite <- app_assoc.
+Qed.
+Lemma m15_ok_not_parser st : m15_stage_ok st = true -> is_parser st = false.
+Proof. destruct st; cbn; congruence. Qed.
+
+Theorem shortcut_keeps_label_filters s :
+  analyze_m15 s = true ->
+  match first_lra s with
+  | Some l => fp_label_filters (plan_ts (sel_matchers (lra_sel l)) (sel_pipeline (lra_sel l)) (simple_ops (sel_pipeline (lra_sel l))))
+              = pipeline_label_filters (sel_pipeline (lra_sel l))
+  | None => False
+  end.
+Proof.
+  unfold analyze_m15. destruct (first_lra s) as [l|]; [|discriminate].
+  rewrite !andb_true_iff. intros [_ Hp]. unfold plan_ts. rewrite plan_ts_filters; [reflexivity|].
+  intros st Hst. apply m15_ok_not_parser. rewrite forallb_forall in Hp. now apply Hp.
 Qed.
